@@ -443,7 +443,7 @@ class P11(object):
     def copy_object(self, s, o, attrs):
         t = Template(attrs)
         h = ULONG(0)
-        rv = self.lib.C_CopyObject(s, o, t.ptr, t.n, C.byref(h))
+        rv = self.lib.C_CopyObject(s, o, t.arr, t.n, C.byref(h))   # non-NULL pointer also for an empty template
         return rv, h.value
 
     def destroy_object(self, s, o):
